@@ -123,10 +123,12 @@ fn cases(quick: bool) -> Vec<Case> {
             if k >= 1 && (n <= 16 || (!quick && n <= 64)) {
                 sources.push("witness-elements");
                 sources.push("mixed-elements");
+                // every other element computed by an inner fold over its own (one-element) list literal
+                sources.push("nested-literal-elements");
             }
             for source in sources {
                 let mut funcs: Vec<String> = vec!["counter".into()];
-                if source == "witness-elements" || source == "mixed-elements" {
+                if source == "witness-elements" || source == "mixed-elements" || source == "nested-literal-elements" {
                     funcs.push("hash".into());
                 }
                 if n <= 256 && (source == "literal" || source == "witness") {
@@ -164,7 +166,7 @@ fn cases(quick: bool) -> Vec<Case> {
 pub fn run(rep: &Report) -> i32 {
     let quick = rep.is_quick();
     let cs = cases(quick);
-    rep.set("bounds", json!({"cases": cs.len(), "bounds_N": if quick {"2..256 (all lengths for N<=64, block edges +-1 above)"} else {"2..512 (all lengths for N<=256, block edges +-1 for 512)"}, "sources": ["literal", "witness", "function", "match", "witness-elements (N<=16 quick, <=64 thorough)", "mixed-elements"], "fold_functions": ["counter", "hash", "tagged", "opt", "panic@j"]}));
+    rep.set("bounds", json!({"cases": cs.len(), "bounds_N": if quick {"2..256 (all lengths for N<=64, block edges +-1 above)"} else {"2..512 (all lengths for N<=256, block edges +-1 for 512)"}, "sources": ["literal", "witness", "function", "match", "witness-elements (N<=16 quick, <=64 thorough)", "mixed-elements", "nested-literal-elements"], "fold_functions": ["counter", "hash", "tagged", "opt", "panic@j"]}));
     par_for(&cs, rep, 4, |i, c| {
         drive::DUMMY.with(|env| check_case(rep, c, i, env));
     });
@@ -206,6 +208,24 @@ fn check_case(rep: &Report, c: &Case, idx: usize, env: &drive::Env) {
                 }
             }
             assignments = vec![vals];
+            Expr::List(es)
+        }
+        "nested-literal-elements" => {
+            // fn last_of(e: T, acc: T) -> T { e };  element i (odd i, and the last one) = fold::<last_of, 2>(list![v_i], v_i) = v_i
+            fns.push(FnDef { name: "last_of".into(), params: vec![("e".into(), el_ty.clone()), ("acc".into(), el_ty.clone())], ret: Some(el_ty.clone()), body: (vec![], Some(Box::new(var("e")))) });
+            let n_el = elements.len();
+            let es: Vec<Expr> = elements
+                .iter()
+                .enumerate()
+                .map(|(i, v)| {
+                    let lit = val_expr(v, &el_ty);
+                    if i % 2 == 1 || i + 1 == n_el {
+                        call(CallName::Fold("last_of".into(), 2), vec![Expr::List(vec![lit.clone()]), lit])
+                    } else {
+                        lit
+                    }
+                })
+                .collect();
             Expr::List(es)
         }
         "function" => {
